@@ -178,6 +178,23 @@ def run(rep, tier, seed):
             check_input(rep, drv, data, specs, tier)
     else:
         rep.extra['exhaustive'] = True
+    # contents sweep per scalar type: every first content octet x short tails from a structural alphabet
+    small = [0x00, 0x01, 0x02, 0x03, 0x7f, 0x80, 0x81, 0xff]
+    utags = [1, 2, 3, 4, 5, 6, 9, 10, 12, 22, 30]
+    firsts = range(256) if tier == 'thorough' else sorted(set(list(range(0, 256, 5)) + small + [0x83, 0xc3, 0x40, 0x41, 0x43, 0x0a, 0x2b]))
+    sweep_specs = {1: 'bool', 2: 'int', 3: 'bits', 4: '(str 4)', 5: 'null', 6: 'oid', 9: 'real', 10: 'enum', 12: '(str 12)',
+                   22: '(str 22)', 30: '(str 30)'}
+    for ut in utags:
+        st = sexp_types.ty_of_sexp(gen.parse_sexps(sweep_specs[ut])[0])
+        sp = [(sweep_specs[ut], st, gen.build(st)), (None, None, None)]
+        for f in firsts:
+            for tail in itertools.chain([()], itertools.product(small, repeat=1), itertools.product(small[:6], repeat=2),
+                                        (itertools.product(small[:4], repeat=3) if tier == 'thorough' else [])):
+                content = bytes((f,) + tuple(tail))
+                data = bytes([ut, len(content)]) + content
+                rep.case(data.hex(), nontrivial=True)
+                rep.count('content-sweep')
+                check_input(rep, drv, data, sp, tier)
     # mutations of valid encodings, decoded with the own type, a neighbouring type and without type
     n = 400 if tier == 'quick' else 20000
     for case in engine.gen_cases(rng, n, max_depth=2, allow_any=True):
